@@ -327,21 +327,35 @@ def install(eng):
 
     @model("builtins.next")
     def _next(eng, it, *default):
-        # first element of a concrete iterable / generator expression (the rest of the iterator is not used afterwards in the supported patterns)
-        if isinstance(it, (list, tuple)) or type(it).__name__ in ("SymList", "LazySeq"):
+        from . import lazyseq as LZ
+        if isinstance(it, LZ.Stateful):
+            ok, v = it.try_next(eng)
+            if ok:
+                return v
+        elif isinstance(it, I.GeneratorValue):
+            if it.pos < len(it.items):
+                it.pos += 1
+                return it.items[it.pos - 1]
+        else:
             raise I.PyRaise("TypeError", ("object is not an iterator",))
-        vals = list(M.iterate(eng, it))
-        if vals:
-            return vals[0]
         if default:
             return default[0]
         raise I.PyRaise("StopIteration", ())
 
     @model("builtins.map")
     def _map(eng, f, *its):
-        # evaluated eagerly over concrete-length iterables (the mapped function must be pure for this to be faithful)
-        seqs = [list(M.iterate(eng, it)) for it in its]
-        return [eng.call(f, list(xs), {}) for xs in zip(*seqs)]
+        # a one-shot iterator over f(x_0, y_0), f(x_1, y_1), ...: items are computed when they are pulled (and only once)
+        from . import lazyseq as LZ
+        seqs = [list(M.iterate(eng, it)) for it in its]          # sources of concrete length only
+        n = min(len(s_) for s_ in seqs) if seqs else 0
+        memo = {}
+
+        def item(i):
+            i = int(T.conc(T.simp(i))) if T.is_sym(i) else int(i)
+            if i not in memo:
+                memo[i] = eng.call(f, [s_[i] for s_ in seqs], {})
+            return memo[i]
+        return LZ.LazyIter(LZ.LazySeq(n, item))
 
     @model("functools.reduce")
     def _reduce(eng, f, it, *init):
